@@ -305,27 +305,70 @@ def _limit_mem(gb):
     return f
 
 
-def run_harness(exe, args, lines, timeout=600, env=None, mem_gb=None):
+def run_harness(exe, args, lines, timeout=600, env=None, mem_gb=None, stall=60):
+    """Feed `lines` to the harness, one reply line each.  Killed when the whole run exceeds `timeout` or when no reply line has
+    arrived for `stall` seconds (one case hangs: the lines answered so far are returned, so the caller knows which case it was)."""
+    import threading
     data = ("\n".join(lines) + "\n").encode()
     e = dict(os.environ)
     e.setdefault("ASAN_OPTIONS", "detect_leaks=0:allocator_may_return_null=1:abort_on_error=0")
     e.setdefault("UBSAN_OPTIONS", "print_stacktrace=0:halt_on_error=1")
     if env:
         e.update(env)
-    try:
-        p = subprocess.run([exe] + list(args), input=data, stdout=subprocess.PIPE, stderr=subprocess.PIPE, timeout=timeout, env=e,
-                           preexec_fn=_limit_mem(mem_gb) if mem_gb else None)
-        return p.returncode, p.stdout.decode("utf-8", "replace").split("\n")[:-1], p.stderr.decode("utf-8", "replace")
-    except subprocess.TimeoutExpired as ex:
-        return -999, (ex.stdout or b"").decode("utf-8", "replace").split("\n")[:-1], "TIMEOUT"
+    p = subprocess.Popen([exe] + list(args), stdin=subprocess.PIPE, stdout=subprocess.PIPE, stderr=subprocess.PIPE, env=e,
+                         preexec_fn=_limit_mem(mem_gb) if mem_gb else None)
+    chunks, errs, last = [], [], [time.time()]
+
+    def feed():
+        try:
+            p.stdin.write(data)
+            p.stdin.close()
+        except (BrokenPipeError, OSError):
+            pass
+
+    def read_out():
+        while True:
+            b = p.stdout.read1(65536) if hasattr(p.stdout, "read1") else p.stdout.read(65536)
+            if not b:
+                break
+            chunks.append(b)
+            if b"\n" in b:
+                last[0] = time.time()
+
+    def read_err():
+        errs.append(p.stderr.read())
+
+    ts = [threading.Thread(target=f, daemon=True) for f in (feed, read_out, read_err)]
+    for t in ts:
+        t.start()
+    t0 = time.time()
+    why = None
+    while p.poll() is None:
+        time.sleep(0.05)
+        now = time.time()
+        if now - t0 > timeout:
+            why = "TIMEOUT"
+        elif now - last[0] > stall:
+            why = "TIMEOUT (no reply for %ds: the current case hangs)" % stall
+        if why:
+            p.kill()
+            break
+    p.wait()
+    for t in ts[1:]:
+        t.join(timeout=5)
+    out = b"".join(chunks).decode("utf-8", "replace").split("\n")[:-1]
+    err = (errs[0] if errs and errs[0] else b"").decode("utf-8", "replace")
+    if why:
+        return -999, out, why
+    return p.returncode, out, err
 
 
-def run_harness_resilient(exe, args, lines, timeout=900, env=None, max_restarts=60, mem_gb=None):
+def run_harness_resilient(exe, args, lines, timeout=900, env=None, max_restarts=60, mem_gb=None, stall=60):
     """Like run_harness, but when the process dies (signal, abort, sanitizer) on a line, record
     'crash:<rc>[:<first stderr line>]' for that line and continue with the next one."""
     out, start, restarts = [], 0, 0
     while start < len(lines):
-        rc, o, err = run_harness(exe, args, lines[start:], timeout=timeout, env=env, mem_gb=mem_gb)
+        rc, o, err = run_harness(exe, args, lines[start:], timeout=timeout, env=env, mem_gb=mem_gb, stall=stall)
         out += o
         start = len(out)
         if start >= len(lines):
